@@ -50,8 +50,8 @@ def main() -> int:
         st = None if cfg.stable_final_state_ids is None else sorted(cfg.stable_final_state_ids)
         nm = b.naming
         dyn = sorted((f"{d.parent.particle.name}[{d.parent.id}]->{d.children[0].id},{d.children[1].id}:{float(d.parent.spin_projection)},{float(d.children[0].spin_projection)},{float(d.children[1].spin_projection)}:{d.interaction.l_magnitude}",
-                      getattr(fn, "__qualname__", str(fn)) + ":" + ",".join(
-                          str(getattr(getattr(fn, "__self__", None), a, "")) for a in ("phsp_factor", "form_factor", "energy_dependent_width")))
+                      (getattr(fn, "__qualname__", None) or type(fn).__qualname__) + ":" + ",".join(
+                          str(getattr(getattr(fn, "__self__", fn), a, "")) for a in ("phsp_factor", "form_factor", "energy_dependent_width")))
                      for d, fn in b.dynamics.items())
         # the user's configuration of the adapter = whether permutate_registered_topologies() was requested; topologies
         # that formulate() registers by itself (symmetrised chains) are not configuration
